@@ -691,79 +691,92 @@ func ruleDependenciesFirst(c *core.Ctx) {
 	}
 	c.Check(consumers > 0, rule, "consumers", d.Pos(), fmt.Sprintf("%d call sites consume the order", consumers), "no consumer found")
 
-	// result variable: the one returned
-	var result types.Object
-	for _, s := range d.Body.List {
-		if r, ok := s.(*ast.ReturnStmt); ok && len(r.Results) == 1 {
-			if id, ok := r.Results[0].(*ast.Ident); ok {
-				result = info.Uses[id]
-			}
-		}
+	// the recursive collector: a closure of the function that calls itself, or a function / method of the package that
+	// the function calls and that calls itself
+	type recFn struct {
+		body   *ast.BlockStmt
+		isSelf func(call *ast.CallExpr) bool
 	}
-	// recursive closure: var assigned a FuncLit which calls itself
-	var lit *ast.FuncLit
-	var self types.Object
+	var cands []recFn
 	ast.Inspect(d.Body, func(n ast.Node) bool {
 		if as, ok := n.(*ast.AssignStmt); ok && len(as.Lhs) == 1 && len(as.Rhs) == 1 {
 			if fl, ok := as.Rhs[0].(*ast.FuncLit); ok {
-				if id, ok := as.Lhs[0].(*ast.Ident); ok {
-					lit = fl
-					self = info.Uses[id]
-					if self == nil {
-						self = info.Defs[id]
-					}
+				if self := identObj(info, as.Lhs[0]); self != nil {
+					cands = append(cands, recFn{fl.Body, func(call *ast.CallExpr) bool { return identObj(info, call.Fun) == self }})
+				}
+			}
+		}
+		if ce, ok := n.(*ast.CallExpr); ok {
+			if f := core.Callee(info, ce); f != nil && f.Pkg() == p.Types {
+				if fd := c.Decl(f); fd != nil && fd.Body != nil && fd != d {
+					ff := f
+					cands = append(cands, recFn{fd.Body, func(call *ast.CallExpr) bool { g := core.Callee(info, call); return g != nil && g.Origin() == ff.Origin() }})
 				}
 			}
 		}
 		return true
 	})
-	if result == nil || lit == nil || self == nil {
-		c.Undecided(rule, "pkg/dsl.(*Namespace).GetAllChildReferences/post-order", d.Pos(), "shape not recognised (expected a recursive closure appending to the returned slice)")
-		return
-	}
-	// find, in one block, the recursive call on x and the append of x
-	found := false
-	ast.Inspect(lit.Body, func(n ast.Node) bool {
-		blk, ok := n.(*ast.BlockStmt)
+	isNamespaceSlice := func(e ast.Expr) bool {
+		sl, ok := info.TypeOf(e).Underlying().(*types.Slice)
 		if !ok {
-			return true
+			return false
 		}
-		rec, app := -1, -1
-		var recArg, appArg types.Object
-		for i, s := range blk.List {
-			switch st := s.(type) {
-			case *ast.ExprStmt:
-				if call, ok := st.X.(*ast.CallExpr); ok && len(call.Args) == 1 {
-					if id, ok := call.Fun.(*ast.Ident); ok && info.Uses[id] == self {
-						if a, ok := call.Args[0].(*ast.Ident); ok && rec < 0 {
-							rec, recArg = i, info.Uses[a]
+		nt := core.NamedOf(sl.Elem())
+		return nt != nil && nt.Obj().Name() == "Namespace"
+	}
+	found := false
+	for _, cand := range cands {
+		recursive := false
+		ast.Inspect(cand.body, func(n ast.Node) bool {
+			if ce, ok := n.(*ast.CallExpr); ok && cand.isSelf(ce) {
+				recursive = true
+			}
+			return true
+		})
+		if !recursive {
+			continue
+		}
+		// find, in one block, the recursive call on x and the append of x
+		ast.Inspect(cand.body, func(n ast.Node) bool {
+			blk, ok := n.(*ast.BlockStmt)
+			if !ok {
+				return true
+			}
+			rec, app := -1, -1
+			var recArg, appArg types.Object
+			for i, s := range blk.List {
+				switch st := s.(type) {
+				case *ast.ExprStmt:
+					if call, ok := st.X.(*ast.CallExpr); ok && len(call.Args) >= 1 && cand.isSelf(call) {
+						if a := identObj(info, call.Args[len(call.Args)-1]); a != nil && rec < 0 {
+							rec, recArg = i, a
+						} else if a := identObj(info, call.Args[0]); a != nil && rec < 0 {
+							rec, recArg = i, a
 						}
 					}
-				}
-			case *ast.AssignStmt:
-				if len(st.Lhs) == 1 && len(st.Rhs) == 1 {
-					if id, ok := st.Lhs[0].(*ast.Ident); ok && info.Uses[id] == result {
+				case *ast.AssignStmt:
+					if len(st.Lhs) == 1 && len(st.Rhs) == 1 && isNamespaceSlice(st.Lhs[0]) {
 						if call, ok := st.Rhs[0].(*ast.CallExpr); ok && len(call.Args) == 2 {
 							if f, ok := call.Fun.(*ast.Ident); ok && f.Name == "append" {
-								if a, ok := call.Args[1].(*ast.Ident); ok {
-									app, appArg = i, info.Uses[a]
+								if a := identObj(info, call.Args[1]); a != nil {
+									app, appArg = i, a
 								}
 							}
 						}
 					}
 				}
 			}
-		}
-		if rec >= 0 && app >= 0 && recArg == appArg {
-			found = true
-			c.Check(rec < app, rule, "pkg/dsl.(*Namespace).GetAllChildReferences/post-order", blk.List[app].Pos(),
-				"the closure descends into a reference before appending it: everything a namespace imports precedes it in the result",
-				"a reference is appended before the closure descends into it: an importing namespace precedes the namespaces it imports, and the generated Python registers a dtype that calls get_dtype() on a type not yet registered")
-		}
-		return true
-	})
+			if rec >= 0 && app >= 0 && recArg == appArg {
+				found = true
+				c.Check(rec < app, rule, "pkg/dsl.(*Namespace).GetAllChildReferences/post-order", blk.List[app].Pos(),
+					"the collector descends into a reference before appending it: everything a namespace imports precedes it in the result",
+					"a reference is appended before the collector descends into it: an importing namespace precedes the namespaces it imports, and the generated Python registers a dtype that calls get_dtype() on a type not yet registered")
+			}
+			return true
+		})
+	}
 	if !found {
-		c.Undecided(rule, "pkg/dsl.(*Namespace).GetAllChildReferences/post-order", d.Pos(), "recursive call and append of the same reference not found in one block")
+		c.Undecided(rule, "pkg/dsl.(*Namespace).GetAllChildReferences/post-order", d.Pos(), "recursive call and append of the same reference not found in one block of a recursive collector")
 	}
 }
 
